@@ -495,10 +495,14 @@ fn rand_sub(r: &mut Rng, nregions: usize, want_items: usize, o: &GenOpts) -> Sub
     let wdc = (wc as u16) | if long { 0x8000 } else { 0 };
     // per column: capacity class and the class actually used (often smaller: columns get reclassified)
     let cols = ric.max(wc);
+    // a LONG_WORDS source whose values all fit 16 bits: the subset must fall back to short words
+    let demote = long && r.chance(1, 2);
+    // columns whose largest magnitude sits exactly on a width boundary
+    let boundary = r.chance(1, 2);
     let col_cls: Vec<u64> = (0..cols)
         .map(|c| {
             let cap = match (c < wc, long) {
-                (true, true) => 3,
+                (true, true) => if demote { 2 } else { 3 },
                 (true, false) | (false, true) => 2,
                 (false, false) => 1,
             };
@@ -507,6 +511,20 @@ fn rand_sub(r: &mut Rng, nregions: usize, want_items: usize, o: &GenOpts) -> Sub
                 1 => r.below(cap + 1),
                 _ => cap,
             }
+        })
+        .collect();
+    let col_edge: Vec<Option<i32>> = col_cls
+        .iter()
+        .map(|&cls| {
+            if !boundary || !r.chance(1, 2) {
+                return None;
+            }
+            Some(match cls {
+                1 => *r.pick(&[127, -128]),
+                2 => *r.pick(&[32767, -32768, 128, -129]),
+                3 => *r.pick(&[32768, -32769, 2147483647, -2147483648]),
+                _ => 0,
+            })
         })
         .collect();
     let item_count = want_items;
@@ -524,7 +542,12 @@ fn rand_sub(r: &mut Rng, nregions: usize, want_items: usize, o: &GenOpts) -> Sub
         rows.push(
             col_cls
                 .iter()
-                .map(|&cls| {
+                .zip(&col_edge)
+                .map(|(&cls, edge)| {
+                    if let Some(e) = edge {
+                        // the edge value itself, or something strictly smaller in magnitude class
+                        return if r.chance(1, 2) { *e } else { class_value(r, cls.saturating_sub(1)) };
+                    }
                     let c = if r.chance(1, 4) { r.below(cls + 1) } else { cls };
                     class_value(r, c)
                 })
@@ -623,9 +646,9 @@ fn rand_map(r: &mut Rng, n: usize, subs: &[SubSlot], o: &GenOpts) -> MapT {
 /// a random HVAR (3 maps) or VVAR (4 maps) table for a font of `n` glyphs
 fn rand_table(r: &mut Rng, n: usize, nmaps: usize, o: &GenOpts) -> VarT {
     let axis_count = r.range(1, 3) as u16;
-    let nregions = match r.below(8) {
+    let nregions = match r.below(16) {
         0 => 0,
-        1 => 1,
+        1 | 2 => 1,
         _ => r.range(2, 7) as usize,
     };
     let regions: Vec<Vec<(i16, i16, i16)>> = (0..nregions).map(|_| rand_region(r, axis_count as usize)).collect();
